@@ -4,7 +4,8 @@ arch = {"dim": 1|2, "c0": int, "sp": int, "nodes": [node, ...]}
 node = {"op": ..., "ins": [i, ...], "out": int, "k": int, "d": int, "s": int, "bias": bool, "bn": bool,
         "dw": bool, "excl": bool, "causal": bool, "reuse": int}
 Tensor 0 is the network input, tensor i (1-based) the output of nodes[i-1]; the network output is
-the last tensor.  ops: conv | lin | relu | pool | flat | add | cat | catt | id.
+the last tensor.  ops: conv | lin | relu | pool | flat | gsq | add | cat | catt | id  (gsq = AdaptiveAvgPool1d(1) followed by
+.squeeze(d), d = node field 'd' in {2, -1}).
 All layers are plain torch.nn leaf modules in a ModuleDict; forward() iterates over the node list in
 Python, so torch.fx traces exactly the intended graph.
 """
@@ -48,6 +49,8 @@ def shapes(arch) -> List[Dict[str, int]]:
             sh.append({"ch": i0["ch"], "sp": i0["sp"] // 2, "flat": False})
         elif op == "flat":
             sh.append({"ch": i0["ch"] * (i0["sp"] ** arch["dim"]), "sp": 1, "flat": True})
+        elif op == "gsq":       # global average pooling + squeeze of the (single) spatial axis, 1-D nets
+            sh.append({"ch": i0["ch"], "sp": 1, "flat": True})
         elif op == "add":
             sh.append(dict(i0))
         elif op == "cat":
@@ -123,6 +126,9 @@ class GrammarNet(nn.Module):
             elif op == "flat":
                 self.layers[lname(idx)] = nn.Flatten(1)
                 names.append(lname(idx))
+            elif op == "gsq":
+                self.layers[lname(idx)] = nn.AdaptiveAvgPool1d(1)
+                names.append(lname(idx))
             self.plan.append((op, names, list(n["ins"])))
 
     def forward(self, x):
@@ -134,6 +140,8 @@ class GrammarNet(nn.Module):
                 y = torch.cat([t[i] for i in ins], dim=1)
             elif op == "catt":
                 y = torch.cat([t[i] for i in ins], dim=2)
+            elif op == "gsq":
+                y = self.layers[names[0]](t[ins[0]]).squeeze(self.arch["nodes"][len(t) - 1]["d"])
             else:
                 y = t[ins[0]]
                 for nm in names:
